@@ -10,7 +10,7 @@ import (
 	"time"
 )
 
-var c11Alpha = []Beh{BPass, BErrorf, BSkip, BErrorfSkip, BCleanupErrorf, BCleanupPanic, BFatalA, BCleanupPass, BCleanupErrorfSkip, BCleanupSkip, BErrorfReject}
+var c11Alpha = []Beh{BPass, BErrorf, BSkip, BErrorfSkip, BCleanupErrorf, BCleanupPanic, BFatalA, BCleanupPass, BCleanupErrorfSkip, BCleanupSkip, BErrorfReject, BCleanupErrorfCleanupSkip}
 
 func c11Units(tier string, seed int64) []Unit {
 	quick := tier != "thorough"
@@ -162,6 +162,18 @@ func c11Units(tier string, seed int64) []Unit {
 			})
 		}})
 	}
+	// the two executions of a fail-file case (first run, then "trying to reproduce") are two test cases as
+	// well: the second one is judged on its own execution, with nothing left over from the first - for
+	// every failure kind, also when rapid looks at the failure state of the T before the failing call (state machine)
+	units = append(units, Unit{Name: "C11/fail-file-case-then-its-reproduction", Run: func(c *Ctx) {
+		k := 0
+		for _, size := range []string{"steps", "one", "empty"} {
+			for _, kind := range []Beh{BFatalA, BErrorf, BFailNowC, BPanicStr, BCleanupErrorf, BCleanupFatal, BErrorfThenFatalA, BFail} {
+				k++
+				c06RunAs(c, c06Scen{"TestC11Replay", []string{"plain line"}, size, kind}, uint64(seed)*17+uint64(k), "C11")
+			}
+		}
+	}})
 	return units
 }
 
